@@ -87,8 +87,7 @@ def steps(chk, tier, exe, d):
              "SVC-exit", "SVC-write", "SVC-read"]
     chk.set("step_ok_by_instruction", dict(zip(names, byop)))
     missing = [n for n, v in zip(names, byop) if v == 0 and n != "0xC"]
-    if missing:
-        raise vlib.MachineryError("vacuity: no defined step validated for %s" % missing)
+    chk.vacuity(missing, "no defined step validated for %s" % missing)
     if tot["refused"] > 0.02 * tot["n"]:
         raise vlib.MachineryError("recorder refused %d defined steps" % tot["refused"])
     chk.sample({"step_record": json.loads(lines[5])})
@@ -143,8 +142,7 @@ def runs(chk, tier, exe, d):
     chk.add("run_instructions_validated", steps_)
     chk.set("corpus_programs", [p[0] for p in progs])
     chk.sample({"run_record_head": open(recs).readline()[:400]})
-    if nok < 0.3 * (nok + nundef):
-        raise vlib.MachineryError("vacuity: too few runs stayed inside the ISA's domain")
+    chk.vacuity(nok < 0.3 * (nok + nundef), "too few runs stayed inside the ISA's domain")
     return nok + nundef
 
 
